@@ -50,3 +50,20 @@ Theorem C08_refuted_unguarded_writable_half :
   /\ w_faults (wrun true [WPrepare 7; WRegister 7; WIn 7 true; WPrepare 7; WOut 7 true]) = 0.
 Proof. exact unguarded_faults. Qed.
 Print Assumptions C08_refuted_unguarded_writable_half.
+
+(* The per-connection write queue.  In every history of connections reusing descriptor numbers, queued writes,
+   complete and incomplete deliveries and disconnections: a connection receives only what was queued for it ... *)
+Theorem C08_connection_receives_only_its_own_writes : forall h, q_stale (qrun true h) = 0.
+Proof. exact q_never_stale. Qed.
+Print Assumptions C08_connection_receives_only_its_own_writes.
+(* ... and nothing stays queued under the number of a connection that has ended (the queue is released with it) *)
+Theorem C08_write_queue_released_with_connection : forall h fd,
+  q_open (qrun true h) fd = false -> q_queue (qrun true h) fd = [].
+Proof. exact q_closed_number_has_no_queue. Qed.
+Print Assumptions C08_write_queue_released_with_connection.
+(* refuted for removePeer without its toWrite.erase: the next connection on the number receives the leftover *)
+Theorem C08_refuted_queue_not_erased_on_removal :
+  q_stale (qrun false [QAccept 7; QQueue 7; QClose 7; QAccept 7; QQueue 7; QFlush 7]) = 1
+  /\ q_deliv (qrun false [QAccept 7; QQueue 7; QClose 7; QAccept 7; QQueue 7; QFlush 7]) = [(2, 1); (2, 2)].
+Proof. exact q_refuted_without_erase. Qed.
+Print Assumptions C08_refuted_queue_not_erased_on_removal.
